@@ -21,6 +21,10 @@ Zs == {-3, 0, 6}
 Min(a, b) == IF a <= b THEN a ELSE b
 Max(a, b) == IF a >= b THEN a ELSE b
 Clamp(x, lo, hi) == Min(Max(x, lo), hi)
+BoundKinds == {"none", "lower", "upper", "both"}
+AxLo(k) == CASE k = 1 -> -4 [] k = 2 -> -9 [] k = 3 -> 5
+AxHi(k) == CASE k = 1 -> 3 [] k = 2 -> -6 [] k = 3 -> 8
+ClampB(x, k, kind) == CASE kind = "none" -> x [] kind = "lower" -> Max(x, AxLo(k)) [] kind = "upper" -> Min(x, AxHi(k)) [] kind = "both" -> Clamp(x, AxLo(k), AxHi(k))
 
 \* --- polygons on the integer lattice (vertices in order), convex and concave, both orientations
 Poly(i) == CASE i = 1 -> <<<<0, 0>>, <<4, 0>>, <<4, 4>>, <<0, 4>>>>                                   \* square, counter-clockwise
@@ -73,6 +77,11 @@ Cases ==
   \cup {cc \in {[w |-> "ClampInput1D", lo |-> lo, hi |-> hi, x |-> x] : lo \in {-5, 0}, hi \in {0, 7}, x \in Coord} : cc.lo < cc.hi}   \* the constructors require min < max
   \cup {[w |-> "ClampInput2D", lo |-> -4, hi |-> 3, x |-> x, y |-> y] : x \in {-12, 0, 25}, y \in {-5, 3, 7}}
   \cup {[w |-> "ClampInput3D", lo |-> -4, hi |-> 3, x |-> x, y |-> y, z |-> z] : x \in {-12, 25}, y \in {-5, 7}, z \in {0, 25}}
+  \* every combination of absent / lower / upper / both bounds per axis, passed by keyword; the ranges of the axes lie apart
+  \* (y entirely below, z entirely above the x range), so a bound of one axis compared with another axis' shows
+  \cup {[w |-> "ClampInputBounds", kinds |-> <<k1>>, x |-> x] : k1 \in BoundKinds, x \in {-12, 0, 25}}
+  \cup {[w |-> "ClampInputBounds", kinds |-> <<k1, k2>>, x |-> x, y |-> y] : k1 \in BoundKinds, k2 \in BoundKinds, x \in {-12, 25}, y \in {-12, 0}}
+  \cup {[w |-> "ClampInputBounds", kinds |-> <<k1, k2, k3>>, x |-> x, y |-> y, z |-> z] : k1 \in BoundKinds, k2 \in BoundKinds, k3 \in BoundKinds, x \in {-12, 25}, y \in {-12, 0}, z \in {0, 25}}
   \cup {cc \in {[w |-> "ClampOutput1D", lo |-> lo, hi |-> hi, x |-> x] : lo \in {-5, 0}, hi \in {0, 7}, x \in Coord} : cc.lo < cc.hi}
   \cup {[w |-> "ClampOutput2D", lo |-> -4, hi |-> 3, x |-> x, y |-> 0] : x \in Coord}
   \cup {[w |-> "ClampOutput3D", lo |-> -4, hi |-> 3, x |-> x, y |-> 0, z |-> 0] : x \in Coord}
@@ -114,6 +123,8 @@ Expected(c) ==
     [] c.w = "ClampInput1D" -> [inner |-> <<Clamp(c.x, c.lo, c.hi)>>, post |-> "id"]
     [] c.w = "ClampInput2D" -> [inner |-> <<Clamp(c.x, c.lo, c.hi), Clamp(c.y, c.lo - 1, c.hi + 2)>>, post |-> "id"]
     [] c.w = "ClampInput3D" -> [inner |-> <<Clamp(c.x, c.lo, c.hi), Clamp(c.y, c.lo - 1, c.hi + 2), Clamp(c.z, c.lo + 2, c.hi + 20)>>, post |-> "id"]
+    [] c.w = "ClampInputBounds" -> [inner |-> [k \in 1..Len(c.kinds) |-> ClampB(<<c.x, IF Len(c.kinds) > 1 THEN c.y ELSE 0, IF Len(c.kinds) > 2 THEN c.z ELSE 0>>[k], k, c.kinds[k])],
+                                    post |-> "id", bounds |-> [k \in 1..Len(c.kinds) |-> <<AxLo(k), AxHi(k)>>]]
     [] c.w \in {"ClampOutput1D"} -> [inner |-> <<c.x>>, post |-> "clamp", lo |-> c.lo, hi |-> c.hi]
     [] c.w \in {"ClampOutput2D"} -> [inner |-> <<c.x, c.y>>, post |-> "clamp", lo |-> c.lo, hi |-> c.hi]
     [] c.w \in {"ClampOutput3D"} -> [inner |-> <<c.x, c.y, c.z>>, post |-> "clamp", lo |-> c.lo, hi |-> c.hi]
